@@ -58,4 +58,25 @@ def walkSegs (start : Path) : List Name → Path
 def resolveSpelling (cwd : Path) (absolute : Bool) (segs : List Name) : Path :=
   walkSegs (if absolute then [] else cwd) segs
 
+/-! ### symbolic links -/
+
+/-- a table of symbolic links: (absolute path of the link, absolute path it points to, itself free of links) -/
+abbrev Links := List (Path × Path)
+
+def follow (links : Links) (p : Path) : Path :=
+  match links.find? (fun l => l.1 == p) with
+  | some l => l.2
+  | none => p
+
+/-- `walkSegs` on a file system with symbolic links: a name that is a link continues at its target -/
+def walkSegsL (links : Links) (start : Path) : List Name → Path
+  | [] => start
+  | seg :: rest =>
+    if seg == [] || seg == ['.'] then walkSegsL links start rest
+    else if seg == ['.', '.'] then walkSegsL links start.dropLast rest
+    else walkSegsL links (follow links (start ++ [seg])) rest
+
+def resolveSpellingL (links : Links) (cwd : Path) (absolute : Bool) (segs : List Name) : Path :=
+  walkSegsL links (if absolute then [] else cwd) segs
+
 end ThaiLintModel.C09
